@@ -117,12 +117,22 @@ func directed() []input {
 	add(st(fd("a", "", sl(sc("int"))), fd("b", "", TD{K: "map", Key: "string", E: &TD{K: "int"}})))
 	add(TD{K: "hand", Hand: "hiddenT"})
 	add(st(fd("Count", "count", sc("int")), fd("Lookup", "lookup", TD{K: "hand", Hand: "hiddenT"})))
-	// custom JSON
+	// custom JSON (value / pointer receivers, halves), hidden state: at the top, as a field, as
+	// a slice element, as a map value, inside an array
 	for _, h := range handNames {
 		add(TD{K: "hand", Hand: h})
 		add(st(fd("N", "n", sc("int")), fd("H", "h", TD{K: "hand", Hand: h})))
 		add(st(fd("L", "l", sl(TD{K: "hand", Hand: h}))))
+		add(st(fd("N", "n", sc("int")), fd("M", "m", TD{K: "map", Key: "string", E: &TD{K: "hand", Hand: h}})))
+		add(st(fd("Arr", "", TD{K: "array", N: 2, E: &TD{K: "hand", Hand: h}})))
 	}
+	// state invisible to the encoder although not every field is unexported
+	add(st(fd("entries", "", TD{K: "map", Key: "string", E: &TD{K: "int"}}), fd("Dirty", "-", sc("bool"))))
+	add(st(FD{Name: "Inner", Emb: true, T: st()}, fd("order", "", sl(sc("int")))))
+	add(st(FD{Name: "Inner", Emb: true, T: st(fd("x", "", sc("int")))}, fd("order", "", sl(sc("int")))))
+	add(st(fd("Count", "count", sc("int")),
+		fd("T", "t", st(fd("entries", "", sl(sc("int"))), fd("Dirty", "-", sc("bool"))))))
+	add(st(FD{Name: "HandNone", Emb: true, T: TD{K: "hand", Hand: "HandNone"}}, fd("a", "", sc("int")), fd("B", "b,omitempty", sc("int"))))
 	// disallowed kinds, directly / nested / under json:"-"
 	for _, k := range badScalars {
 		add(st(fd("A", "", sc(k))))
@@ -150,7 +160,7 @@ func directed() []input {
 }
 
 func gen(r *hx.Rand, tier string) []json.RawMessage {
-	n := 450
+	n := 600
 	if tier == "thorough" {
 		n = 6000
 	}
